@@ -119,6 +119,7 @@ func RunCase(p *Program, sol *Solver, spec CaseSpec) *CaseResult {
 		before.BySolver[k] = v
 	}
 	noMerge := map[*ssa.BasicBlock]bool{}
+	sampleDepth := 0
 	var certSol *Solver
 	defer func() {
 		if certSol != nil {
@@ -227,9 +228,12 @@ func RunCase(p *Program, sol *Solver, spec CaseSpec) *CaseResult {
 				res.ReachSat[l]++
 			}
 		}
-		if out == ODone && res.SampleModel == nil && len(ex.nondet) > 0 && spec.WantModel {
+		// keep a model of a path deep in the exploration (most branch decisions): the
+		// translator validation then exercises non-default outcomes as well
+		if out == ODone && len(ex.nondet) > 0 && spec.WantModel && (res.SampleModel == nil || len(ex.decisions) > sampleDepth) {
 			if r, m := sol.Check(ex.rangeTerms(), ex.nondet); r == Sat {
 				res.SampleModel = m
+				sampleDepth = len(ex.decisions)
 			}
 		}
 		switch out {
